@@ -374,12 +374,17 @@ func cmdCheck(args []string) int {
 	var violations []string
 	knownHit := map[string]bool{}
 	seenNames := map[string]bool{}
-	replaysPerFunc := map[string]int{}
 	moreViolations := 0
 	exit := 0
+	type failGroup struct {
+		base    string
+		members []Result
+	}
+	groups := map[string]*failGroup{}
+	var groupOrder []string
 	for _, r := range results {
 		ok := (r.V.Status == "unsat" && !r.O.WantSat) || (r.V.Status == "sat" && r.O.WantSat)
-		// retry a timeout once with a doubled limit (load on the machine must not raise an alarm)
+		// retry a timeout once with a longer limit (load on the machine must not raise an alarm)
 		if !ok && (r.V.Status == "timeout" || r.V.Status == "unknown") && (baseline[baseName(r.O.Name)] || provedFuncs[r.O.Func]) {
 			sv2 := NewSolver(filepath.Join(*verif, ".cache"), timeout*3, 16)
 			rr := runObligations(sv2, []*Obligation{r.O})
@@ -422,39 +427,54 @@ func cmdCheck(args []string) int {
 			continue
 		}
 		required++
-		inBase := baseline[baseName(r.O.Name)] || provedFuncs[r.O.Func]
+		b := baseName(r.O.Name)
+		if groups[b] == nil {
+			groups[b] = &failGroup{base: b}
+			groupOrder = append(groupOrder, b)
+		}
+		groups[b].members = append(groups[b].members, r)
+	}
+	// one report per failing obligation (all split instances / parts together)
+	for _, b := range groupOrder {
+		grp := groups[b]
+		first := grp.members[0]
+		inBase := baseline[b] || provedFuncs[first.O.Func]
 		confirmed := false
 		replayPath := ""
-		if len(violations) >= 8 {
-			// enough reported: the rest is listed in the evidence only
-			violations = append(violations, r.O.Name)
-			moreViolations++
-			continue
-		}
-		if r.V.Status == "sat" && !r.O.WantSat && replaysPerFunc[r.O.Func] < 2 {
-			replayPath, confirmed = e.replay(id, r, *verif)
-			if confirmed {
-				replaysPerFunc[r.O.Func]++
+		var shown Result = first
+		if len(violations) < 12 {
+			tried := 0
+			for _, r := range grp.members {
+				if r.V.Status == "sat" && !r.O.WantSat && tried < 3 {
+					tried++
+					var okc bool
+					replayPath, okc = e.replay(id, r, *verif)
+					shown = r
+					if okc {
+						confirmed = true
+						break
+					}
+				}
 			}
 		}
 		switch {
 		case confirmed:
 			fmt.Printf("VIOLATION property=%s replay=%s\n", id, replayPath)
-			fmt.Printf("  obligation %s refuted (%s); counterexample confirmed on the real code\n", r.O.Name, r.O.Desc)
-			violations = append(violations, r.O.Name)
+			fmt.Printf("  obligation %s refuted (%s); counterexample confirmed on the real code (%d instance(s) of this obligation fail)\n", shown.O.Name, shown.O.Desc, len(grp.members))
+			violations = append(violations, b)
 			exit = 1
 		case inBase:
 			if replayPath == "" {
-				replayPath = e.writeReplayFile(id, r, *verif, nil, "no replay: "+r.V.Status)
+				replayPath = e.writeReplayFile(id, shown, *verif, nil, "no model to replay: solver answered "+shown.V.Status)
 			}
 			fmt.Printf("VIOLATION property=%s replay=%s no-failing-input-found\n", id, replayPath)
-			fmt.Printf("  obligation %s was discharged on the baseline tree and is now %s (%s)\n", r.O.Name, r.V.Status, r.O.Desc)
-			violations = append(violations, r.O.Name)
+			fmt.Printf("  obligation %s was discharged on the baseline tree and is now %s (%s) (%d instance(s) fail)\n", shown.O.Name, shown.V.Status, shown.O.Desc, len(grp.members))
+			violations = append(violations, b)
 			exit = 1
 		default:
-			undecided = append(undecided, r.O.Name+" ("+r.V.Status+")")
+			undecided = append(undecided, b+" ("+first.V.Status+")")
 			if !*quiet {
-				fmt.Printf("UNDECIDED %s %s [%s]\n", r.O.Name, r.V.Status, r.O.Desc)
+				fmt.Printf("UNDECIDED %s %s [%s]\n", b, first.V.Status, first.O.Desc)
 			}
 		}
 	}
@@ -478,6 +498,9 @@ func cmdCheck(args []string) int {
 	}
 	for _, u := range unsupported {
 		fmt.Printf("UNSUPPORTED %s\n", u)
+	}
+	for _, m := range e.missingFuncs {
+		fmt.Printf("UNDECIDED missing-function %s (a contract exists, the function does not)\n", m)
 	}
 	// fixed findings must not reappear: nothing to do (they are ordinary obligations)
 
